@@ -595,6 +595,8 @@ class Interp:
         frame.locals[name] = v
 
     def load_name(self, frame, name):
+        if name == "__block_locals__":
+            return Builtin("__block_locals__", lambda: dict(frame.locals))
         try:
             return frame.lookup(name)
         except KeyError:
@@ -1644,6 +1646,15 @@ class Interp:
         del o.fields[name]
 
     def hasattr(self, o, name, ctx):
+        from . import symlist, absarr
+        if name in ("__len__", "__iter__", "__getitem__") and not isinstance(o, (Obj, ClassVal, ModuleVal, SuperVal)):
+            if isinstance(o, (list, tuple, dict, str, set, frozenset, symlist.SymList, absarr.AbsArr, SymArr, SymMat)):
+                return True
+            if isinstance(o, Vec):
+                return o.ndim > 0
+            if isinstance(o, (GenVal, RangeVal)):
+                return name != "__len__" or isinstance(o, RangeVal)
+            return False
         try:
             self.getattr(o, name, ctx)
             return True
